@@ -30,6 +30,10 @@ pub fn spec_for(seed: u64, index: u64) -> SysSpec {
     {
         let mut spec = sysgen::generate(seed, "C03", index, &gen_cfg());
         // bad states over inputs only, tied to a counter by a constraint
+        // phase bits next to a counter
+        if index % 11 == 9 {
+            sysgen::phase_counter(&mut spec, index / 11);
+        }
         // a constraint gated by a chain of delay registers
         if index % 11 == 7 {
             sysgen::delayed_gate(&mut spec, index / 11);
